@@ -102,6 +102,7 @@ void model_insert(Block* b, const char* what) {
   }
   H.live[s] = b;
   for (auto& w : H.watch) if (!w.dropped && w.p < e && w.p + w.usable > s) w.dropped = true;   // handed out again
+  for (auto& z : H.zombies) if (!z.reissued && (uintptr_t)z.p < e && (uintptr_t)z.p + z.usable > s) z.reissued = true;
 }
 void model_remove(Block* b) { H.live.erase((uintptr_t)b->p); }
 
@@ -141,11 +142,12 @@ static void thread_ctx_fresh_heaps(ThreadCtx* t) {
   for (int i = 0; i < 8; i++) t->hslots[i] = -1;
   t->backing = new_model_heap(t->prog, HK_BACKING, nullptr);
   t->deflt = t->backing;
-  t->initialized = false;
+  t->initialized = false; t->alloc_ok = false;
 }
 
 void resolve_backing() {
   MHeap& m = H.heaps[T->backing];
+  if (m.h == nullptr && !T->alloc_ok && T->prog != 0 && (os_faults_fired() > 0 || os_any_fault_active())) return;   // the thread heap may not exist
   if (m.h == nullptr) { sched_set_passthrough(true); m.h = mi_heap_get_backing(); sched_set_passthrough(false); }
 }
 mi_heap_t* heap_ptr(int mh) {
@@ -161,6 +163,7 @@ int heap_for_alloc(const Op& op) {
 // all blocks of the model heaps of `prog` lose their owner (thread exit / mi_thread_done)
 static void orphan_thread_blocks(int prog) {
   for (auto& kv : H.live) { Block* b = kv.second; if (b->heap >= 0 && H.heaps[b->heap].prog == prog) { b->orphan_kind = (H.heaps[b->heap].tag != 0 ? 2 : 1); b->heap = -1; } }
+  for (Block* b : H.limbo) if (b->heap >= 0 && H.heaps[b->heap].prog == prog) { b->orphan_kind = (H.heaps[b->heap].tag != 0 ? 2 : 1); b->heap = -1; }
   for (auto& m : H.heaps) if (m.prog == prog) m.alive = false;
 }
 
@@ -292,6 +295,7 @@ static void do_alloc(const Op& op) {
     if (!null_allowed(op)) sim_violation("unexpected_null", "%s(a=%llu,b=%llu,c=%llu) returned NULL although the request is well-formed and the OS refused nothing", what, (unsigned long long)op.a, (unsigned long long)op.b, (unsigned long long)op.c);
     return;
   }
+  T->alloc_ok = true;
   Block* b = new Block();
   b->p = (uint8_t*)r.p; b->req = r.req; b->align = r.align; b->offset = r.offset; b->id = H.next_block_id++;
   b->zchain = r.zero; b->prog = T->prog; b->subproc = T->subproc; b->slot = s;
@@ -355,7 +359,7 @@ static void do_realloc(const Op& op) {
   mi_heap_t* h = (mh >= 0 ? heap_ptr(mh) : nullptr);
   const uint64_t a = op.a, bb = op.b, c = op.c, d = op.d;
   void* p = old ? old->p : nullptr;
-  if (old) { block_verify(old, "before realloc"); model_remove(old); H.slots[s] = nullptr;
+  if (old) { block_verify(old, "before realloc"); model_remove(old); H.slots[s] = nullptr; H.limbo.push_back(old);
     if (old->orphan_kind >= 2 && old->prog == T->prog) snprintf(T->note, sizeof T->note, " while thread %d releases block #%llu whose page was orphaned by mi_heap_delete of a %s heap", T->prog, (unsigned long long)old->id, old->orphan_kind == 2 ? "tagged" : "arena-bound"); }
   g_busy[s] = 1;
   size_t newreq = 0; size_t align = 0, offset = 0; bool zero = false; bool is_expand = false; bool frees_on_fail = false; bool overflow = false;
@@ -383,6 +387,7 @@ static void do_realloc(const Op& op) {
     default: break;
   }
   g_busy[s] = 0;
+  if (old) for (size_t i = 0; i < H.limbo.size(); i++) if (H.limbo[i] == old) { H.limbo.erase(H.limbo.begin() + (long)i); break; }
   T->initialized = true;
   H.reallocs++;
   const char* what = op_names[op.code];
@@ -422,6 +427,7 @@ static void do_realloc(const Op& op) {
     }
     return;
   }
+  T->alloc_ok = true;
   sched_set_passthrough(true);
   size_t usable = mi_usable_size(q);
   sched_set_passthrough(false);
@@ -651,6 +657,10 @@ static void exec_op(const Op& op, int idx) {
   else run_oracle_op(op);
   check_error_callbacks(op);
   sample_verify();
+  if (g_cfg.trace) {
+    Block* tb = (op.slot >= 0 && op.slot < (int)H.slots.size() && c <= OP_cfree) ? H.slots[op.slot] : nullptr;
+    sim_note("op p%d#%d %s slot=%d h=%d a=%llu -> %p req=%zu heap=%d t=%llums", T->prog, idx, op_names[c], op.slot, op.hslot, (unsigned long long)op.a, tb ? (void*)tb->p : nullptr, tb ? tb->req : 0, tb ? tb->heap : -9, (unsigned long long)(clock_now_ns() / 1000000ull));
+  }
 }
 
 static void prog_main(int vt, void* arg) {
@@ -711,7 +721,13 @@ extern const char* (*g_op_name_of)(int prog, int op);
     for (auto& f : plan.progs[pi].ops[oi].faults) { FaultSpec x; x.vt = (int)pi; x.op = (int)oi; x.kind = f.kind; x.nth = f.nth; x.err = f.err; x.persistent = f.persistent; fs.push_back(x); }
   os_set_faults(fs);
   g_result_extra = &result_extra;
-  g_crash_context = []() -> const char* { return T ? T->note : ""; };
+  g_crash_context = []() -> const char* {
+    if (!T) return "";
+    if (T->note[0] == 0) for (auto& kv : H.live) if (kv.second->orphan_kind >= 2 && kv.second->prog == T->prog) {
+      snprintf(T->note, sizeof T->note, " while thread %d still owns segments with pages that were orphaned by mi_heap_delete of a %s heap (block #%llu)", T->prog, kv.second->orphan_kind == 2 ? "tagged" : "arena-bound", (unsigned long long)kv.second->id);
+      break;
+    }
+    return T->note; };
   g_abort_is_expected = []() -> bool { return T && T->misuse_in_progress && is_dbg_build() && (T->got_err_mask & (EB_EFAULT | EB_EAGAIN)) != 0; };
   g_op_name_of = [](int prog, int op) -> const char* { if (prog >= 0 && prog < (int)H.plan->progs.size() && op >= 0 && op < (int)H.plan->progs[prog].ops.size()) return op_names[H.plan->progs[prog].ops[op].code]; return "thread start/exit"; };
   if (plan.purge_overlap_check) g_os_purge_hook = &purge_hook;
